@@ -1,4 +1,5 @@
 from functools import wraps
+from inspect import getcoroutinestate, CORO_CREATED
 import reprlib
 import enum
 from typing import Coroutine, TypeVar, Awaitable, Optional, Tuple, Any, List,\
@@ -198,8 +199,7 @@ class Task(Awaitable[RT]):
                     else TaskState.FAILED
                 )
             return TaskState.SUCCESS
-        # a stripped-down version of `inspect.getcoroutinestate`
-        if self.__runner__.cr_frame.f_lasti == -1:
+        if getcoroutinestate(self.__runner__) == CORO_CREATED:
             return TaskState.CREATED
         return TaskState.RUNNING
 
@@ -213,7 +213,7 @@ class Task(Awaitable[RT]):
         # we have not FINISHED running yet, and can still change the result
         if self._result is None:
             self._result = None, reason
-            if self.__runner__.cr_frame.f_lasti == -1:
+            if getcoroutinestate(self.__runner__) == CORO_CREATED:
                 # We have not STARTED running yet
                 # This means __runner__ will start running in the same time frame.
                 # We cannot .close() it, since it must receive the un-cancellable
